@@ -4,9 +4,10 @@
  *  async <cache> <rcvTimeout> <sndTimeout> <steps>
  *    steps ','-separated:
  *      a                          add a signing request
+ *      ac | cf                    add a request carrying a hash and a configuration request | a configuration request alone => A<status>:<id> | A<status>:c
  *      run                        KSI_AsyncService_run
  *      net:<poll>:<y|n>:<recvs>:<sends>   environment of the following dispatches (recvs in bytes, 'p' = everything)
- *      srv:<kind>:<k>[:<arg>]     the server appends a PDU for request k: ok | status:<code> | unk | stale | badmac | errpdu:<code> | conf | garbage
+ *      srv:<kind>:<k>[:<arg>]     the server appends a PDU for request k: ok | status:<code> | unk | stale | badmac | errpdu:<code> | conf | okc | cok | garbage
  *      t:<secs>
  *  => one token per a/run/srv step:  A<status>:<id>   R<rc>:<idx|->:<state>:<err>:p<pending>   S<hex> */
 #include <sys/types.h>
@@ -112,6 +113,7 @@ static void do_line(char *work, const char *orig) {
 	(void)orig;
 	if (n == 5 && !strcmp(w[0], "async")) {
 		KSI_AsyncService *as = NULL; KSI_AsyncHandle *hs[MAXREQ]; int nh = 0, first = 1, i;
+		KSI_AsyncHandle *cfs[64]; int ncf = 0;
 		char *save = NULL, *tok; rb_buf stream;
 		rb_init(&stream);
 		g_nconn = 0; g_now = 1000; g_poll_ret = 1; g_revents = POLLIN | POLLOUT; g_connect_ok = 1; g_spos = 0; g_slen = 0;
@@ -124,7 +126,7 @@ static void do_line(char *work, const char *orig) {
 		KSI_AsyncService_setOption(as, KSI_ASYNC_OPT_CON_TIMEOUT, (void *)(size_t)10);
 		KSI_AsyncService_setOption(as, KSI_ASYNC_OPT_MAX_REQUEST_COUNT, (void *)(size_t)1000);
 		for (tok = strtok_r(w[4], ",", &save); tok; tok = strtok_r(NULL, ",", &save)) {
-			if (tok[0] == 'a') {
+			if (!strcmp(tok, "a")) {
 				KSI_DataHash *hsh = NULL; KSI_AsyncHandle *h = NULL; unsigned char d[32]; int r;
 				memset(d, nh & 0xff, sizeof(d));
 				KSI_DataHash_fromDigest(ctx, KSI_HASHALG_SHA2_256, d, sizeof(d), &hsh);
@@ -132,6 +134,22 @@ static void do_line(char *work, const char *orig) {
 				r = KSI_AsyncService_addRequest(as, h);
 				if (!first) putchar(' '); first = 0;
 				if (r == KSI_OK) { printf("A0:%llu", (unsigned long long)h->id); if (nh < MAXREQ) hs[nh++] = KSI_AsyncHandle_ref(h); }
+				else { printf("A%d:-", r); KSI_AsyncHandle_free(h); }
+			} else if (!strcmp(tok, "ac") || !strcmp(tok, "cf")) {
+				/* ac: one request carrying a hash and a configuration request (two handles come back for it); cf: a configuration request alone */
+				KSI_AggregationReq *req = NULL; KSI_Config *cfg = NULL; KSI_AsyncHandle *h = NULL; int r;
+				KSI_AggregationReq_new(ctx, &req); KSI_Config_new(ctx, &cfg); KSI_AggregationReq_setConfig(req, cfg);
+				if (tok[0] == 'a') {
+					KSI_DataHash *hsh = NULL; unsigned char d[32];
+					memset(d, nh & 0xff, sizeof(d));
+					KSI_DataHash_fromDigest(ctx, KSI_HASHALG_SHA2_256, d, sizeof(d), &hsh);
+					KSI_AggregationReq_setRequestHash(req, hsh);
+				}
+				KSI_AsyncAggregationHandle_new(ctx, req, &h);      /* takes ownership of the request */
+				r = KSI_AsyncService_addRequest(as, h);
+				if (!first) putchar(' '); first = 0;
+				if (r == KSI_OK && tok[0] == 'a') { printf("A0:%llu", (unsigned long long)h->id); if (nh < MAXREQ) hs[nh++] = KSI_AsyncHandle_ref(h); }
+				else if (r == KSI_OK) { printf("A0:c"); if (ncf < 64) cfs[ncf++] = h; }
 				else { printf("A%d:-", r); KSI_AsyncHandle_free(h); }
 			} else if (!strncmp(tok, "run", 3)) {
 				KSI_AsyncHandle *h = NULL; size_t waiting = 0, pending = 0; int r;
@@ -147,6 +165,7 @@ static void do_line(char *work, const char *orig) {
 					int idx = -1;
 					for (i = 0; i < nh; i++) if (hs[i] == h) idx = i;
 					printf("R%d:%d:%d:%d:p%zu:w%zu", r, idx, h->state, h->err, pending, waiting);
+					for (i = 0; i < ncf; i++) if (cfs[i] == h) { cfs[i] = NULL; break; }   /* a configuration request of our own: its reference came back */
 					KSI_AsyncHandle_free(h);
 				}
 			} else if (!strncmp(tok, "g:", 2)) {
@@ -173,6 +192,8 @@ static void do_line(char *work, const char *orig) {
 				else if (!strcmp(f[1], "stale")) rb_aggr_resp(&pl, id ^ (1ULL << 32), 0, NULL);
 				else if (!strcmp(f[1], "errpdu")) rb_err_payload(&pl, (uint64_t)strtoull(f[3], NULL, 10), "err");
 				else if (!strcmp(f[1], "conf")) rb_aggr_conf(&pl, 17, 400);
+				else if (!strcmp(f[1], "okc")) { rb_aggr_conf(&pl, 17, 400); rb_aggr_resp(&pl, id, 0, NULL); }   /* the answer to a request that also asked for the configuration */
+				else if (!strcmp(f[1], "cok")) { rb_aggr_resp(&pl, id, 0, NULL); rb_aggr_conf(&pl, 17, 400); }
 				if (!strcmp(f[1], "garbage")) { unsigned char g[6] = {0x82, 0x21, 0x00, 0x02, 0xff, 0xff}; rb_put(&pdu, g, 6); }
 				else rb_pdu_v2(&pdu, 0x221, "anon", &pl, 1, !strcmp(f[1], "badmac") ? "wrong" : "pass", !strcmp(f[1], "badmac") ? 5 : 4);
 				rb_put(&stream, pdu.p, pdu.n);
